@@ -14,6 +14,7 @@ var TBRun func(args []string) error
 // Init wires the injected entry points into the engines.
 func Init() {
 	pluginw.HostMain = HostMain
+	orderw.HostMain = HostMain
 	orderw.TBRun = TBRun
 }
 
